@@ -423,6 +423,26 @@ func runC02(w *World, r *Report) {
 	}
 
 	// ---- workflow flags
+	r.Rule("C02.successors-not-mutated", "the successor lists of the compiled graph are never the first operand of an append on the run path (shared with C01.successors-not-mutated): the targets a branch picked in one run must not end up in the edge list every later completion of that node reads", 1)
+	{
+		owners := map[*types.Named]bool{w.Named("compose", "chanCall"): true}
+		reach := runReach(w)
+		var fns []*ssa.Function
+		for _, fn := range w.RepoFuncs("compose") {
+			if reach[fn] || reach[topFunc(fn)] {
+				fns = append(fns, fn)
+			}
+		}
+		n0 := len(r.Obs)
+		ruleAppendAlias(w, r, "C02.successors-not-mutated", owners, fns, reach)
+		if len(r.Obs) == n0 {
+			r.OK("C02.successors-not-mutated", "run-path appends", w.Fn("compose", "runner.resolveCompletedTasks").Pos(), fmt.Sprintf("%d run-path functions: no append starts from a chanCall slice", len(fns)))
+		}
+	}
+
+	r.Rule("C02.passthrough-sides", "the helper a pass-through node derives from its neighbour fills its input-side slots (zero value, empty stream — what a DAG channel hands a node triggered without data) from ONE side of the neighbour (shared with C04.role-uniform, package compose)", 5)
+	ruleRoleUniform(w, r, "C02.passthrough-sides", "compose")
+
 	r.Rule("C02.workflow-flags", "noDirectDependency -> (noControl=true,noData=false); dependencyWithoutInput -> (false,true); default -> (false,false); workflow branches skipData=true", 4)
 	adr := w.Fn("compose", "WorkflowNode.addDependencyRelation")
 	addEdge := w.Fn("compose", "graph.addEdgeWithMappings")
